@@ -373,7 +373,8 @@ class TaggedSeries(object):
 
     https://github.com/RichiH/OpenMetrics
     """
-    (metric, rawtags) = path[0:-1].split('{', 2)
+    # split at the first '{' only: tag values may contain '{' themselves
+    (metric, rawtags) = path[0:-1].split('{', 1)
     if not metric:
       raise Exception('Cannot parse path %s, no metric found' % path)
 
